@@ -5,7 +5,7 @@ cd /verif
 git merge --no-edit --no-commit "slice-$id" >/tmp/merge-$id.log 2>&1 || true
 for f in $(git diff --name-only --diff-filter=U); do
   case "$f" in
-    lean/Main.lean|lean/SlipVerif.lean|MANIFEST.json|.gitignore) git checkout --ours -- "$f" 2>/dev/null; git add "$f";;
+    lean/Main.lean|lean/SlipVerif.lean|MANIFEST.json|.gitignore|tools/check.py) git checkout --ours -- "$f" 2>/dev/null; git add "$f";;
     evidence/*) git checkout --ours -- "$f" 2>/dev/null; git add -f "$f";;
     *) echo "CONFLICT: $f";;
   esac
